@@ -84,11 +84,12 @@ def run(ck, facts):
         used = any("#extern_ident" in (x.get("src") or "") for x in C.walk(C.fn_body(g)) if x.get("k") == "macro")
         ck.expect(used, "R2", "macro/extern_ident-used", "", "the extern fn template no longer uses #extern_ident", C.loc(g))
     gb = mac.fn("diplomat::gen_bridge")
-    defs = flow.defs_of(gb)
     d_ident = None
-    for n in C.walk(C.fn_body(gb)):
-        if n.get("k") == "letst" and n["pat"].get("n") == "destroy_ident":
-            d_ident = n
+    for gcand in C.fns_inl(mac, gb):
+        for n in C.walk(C.fn_body(gcand)):
+            if n.get("k") == "letst" and n["pat"].get("n") == "destroy_ident" and d_ident is None:
+                d_ident = n
+                defs = flow.defs_of(gcand)
     if d_ident is None:
         ck.bad("R2", "macro/destroy_ident", "anchor `let destroy_ident` not found", C.loc(gb))
     else:
